@@ -751,6 +751,9 @@ func rulesC14(c *Ctx) {
 	c01Self(c)
 	execStateMethods(c, nil)
 	asyncResultRules(c)
+	// the async runner: the result is published (and waiters released) as the goroutine's last action, after the
+	// completion listeners ran — closing the done channel is the only ordering between the runner and the waiters
+	executeAsyncRule(c)
 	c07Race(c)
 	c09Loop(c)
 	configImmutableAll(c)
